@@ -45,6 +45,8 @@ ASSUMPTIONS = [
 HEADER = "From Artap Require Import Run.C15Run.\nLocal Open Scope R_scope.\n"
 
 DIMS = [1, 2, 3, 5, 10, 30]
+# oracle-only stream at large accepted dimensions (Schwefel: 4000, beyond the n = 3676 where the truncated alpha of F9 mattered)
+LARGE_DIMS = {"default": [100], "Schwefel": [100, 4000]}
 TOL = 1e-3
 
 # class name, module, Coq function, Coq bench record, takes a `dimension` argument
@@ -97,6 +99,23 @@ def tol_of(y):
 
 def frl(f):
     return "(%d / %d)" % (f.numerator, f.denominator)
+
+
+MAX_BINARY64 = Fraction(1.7976931348623157e308)
+
+
+def perm_value_exceeds_binary64(x):
+    """exact rational arithmetic: does the real value of Perm at x (sum over i = 1..n, j of (j+1+10)(x_j^i - 1/(j+1)^i)^2,
+    all terms non-negative) exceed the largest finite binary64?  Largest powers first, so it stops early."""
+    n = len(x)
+    xs = [Fraction(v) for v in x]
+    total = Fraction(0)
+    for i in range(n, 0, -1):
+        for j, d in enumerate(xs):
+            total += (j + 1 + 10) * (d ** i - Fraction(1, (j + 1) ** i)) ** 2
+            if total > MAX_BINARY64:
+                return True
+    return False
 
 
 class UniformTape:
@@ -165,23 +184,39 @@ def run(ctx):
         """one call of the implementation; returns (value or None, tape of draws)."""
         vec = [np.float64(v) for v in x] if as_numpy else [float(v) for v in x]
         tape.tape = []
+        inp = {"class": cls, "dimension": n, "x": list(map(float, x)), "coordinate_type": "numpy.float64" if as_numpy else "float"}
+
+        def perm_excused(observed):
+            # open known finding F10: Perm's real value at this point is not representable in binary64 (dimension >= 81).
+            # Only this exact situation is excused; every other crash / non-finite result stays an ordinary failure.
+            if cls == "Perm" and perm_value_exceeds_binary64(x):
+                stats["perm_value_exceeds_binary64"] = stats.get("perm_value_exceeds_binary64", 0) + 1
+                ctx.oracle_failures.append({
+                    "what": "Perm(dimension=%d): the real value at this box point exceeds the largest binary64 (1.7976931348623157e308); "
+                            "evaluate %s instead of returning one finite real" % (n, observed),
+                    "input": inp, "observed": observed, "required": "one finite real cost",
+                    "match": {"kind": "perm_value_exceeds_binary64", "class": "Perm"}})
+                return True
+            return False
         try:
             out = p.evaluate(Individual(vec))
         except Exception as e:
+            if isinstance(e, OverflowError) and perm_excused("raises %r" % (e,)):
+                return None, []
             fail("evaluate raises %r for %s coordinates" % (e, "numpy.float64" if as_numpy else "Python float"),
-                 cls, n, "crash", {"class": cls, "dimension": n, "x": list(map(float, x)), "coordinate_type": "numpy.float64" if as_numpy else "float"})
+                 cls, n, "crash", inp)
             return None, []
         draws = list(tape.tape)
         ok = isinstance(out, (list, tuple)) and len(out) == 1
         y = out[0] if ok else None
-        if ok and (isinstance(y, bool) or not isinstance(y, (numbers.Real, np.floating, np.integer)) or not math.isfinite(float(y))):
+        if ok and (isinstance(y, bool) or isinstance(y, np.ndarray) or not isinstance(y, (numbers.Real, np.floating, np.integer))):
             ok = False
-        if ok and isinstance(y, np.ndarray):
+        if ok and not math.isfinite(float(y)):
+            if perm_excused("returns %r" % (out,)):
+                return None, draws
             ok = False
         if not ok:
-            fail("evaluate does not return one finite real cost: %r" % (out,), cls, n, "not_finite_real",
-                 {"class": cls, "dimension": n, "x": list(map(float, x)), "coordinate_type": "numpy.float64" if as_numpy else "float"},
-                 observed=repr(out))
+            fail("evaluate does not return one finite real cost: %r" % (out,), cls, n, "not_finite_real", inp, observed=repr(out))
             return None, draws
         for (a, b, v) in draws:
             if (a, b) != (0, 1):
@@ -207,6 +242,22 @@ def run(ctx):
     def better(direction, a, b, margin=0.0):
         """a is better than b by more than margin."""
         return a < b - margin if direction == "minimize" else a > b + margin
+
+    def check_clauses(cls, n, kind, x, direction, opt, y_py, y_np):
+        """the bound clause at any box point, the value clause at the documented coordinates (implementation only)."""
+        # clause: nothing in the box is better than the documented optimum
+        for y, ctype in ((y_py, "float"), (y_np, "numpy.float64")):
+            if y is not None and better(direction, y, opt, TOL):
+                fail("a point of the box has value %r, better (%s) than the documented optimum %r by more than 1e-3" % (y, direction, opt),
+                     cls, n, "better_than_optimum",
+                     {"class": cls, "dimension": n, "x": x, "coordinate_type": ctype}, observed=y, required="%s %r" % (">= " if direction == "minimize" else "<=", opt))
+        # clause: the documented optimum is taken at the documented coordinates
+        if kind in ("optimum", "optimum_witness"):
+            for y, ctype in ((y_py, "float"), (y_np, "numpy.float64")):
+                if y is not None and abs(y - opt) > TOL:
+                    fail("value %r at the documented optimal coordinates differs from the documented optimum %r by more than 1e-3" % (y, opt),
+                         cls, n, "optimum_value",
+                         {"class": cls, "dimension": n, "x": x, "coordinate_type": ctype}, observed=y, required=opt)
 
     for spec in SPECS:
         cls, modn, fcoq, bcoq, ndim = spec
@@ -332,19 +383,7 @@ def run(ctx):
                 if y_py is not None and y_np is not None and y_py != y_np and fcoq != "xsy3":
                     stats["numpy_differs_from_python"] += 1
                 evaluated.append((kind, x, y_py, dr_py, y_np, dr_np))
-                # clause: nothing in the box is better than the documented optimum
-                for y, ctype in ((y_py, "float"), (y_np, "numpy.float64")):
-                    if y is not None and better(direction, y, opt, TOL):
-                        fail("a point of the box has value %r, better (%s) than the documented optimum %r by more than 1e-3" % (y, direction, opt),
-                             cls, n, "better_than_optimum",
-                             {"class": cls, "dimension": n, "x": x, "coordinate_type": ctype}, observed=y, required="%s %r" % (">= " if direction == "minimize" else "<=", opt))
-                # clause: the documented optimum is taken at the documented coordinates
-                if kind in ("optimum", "optimum_witness"):
-                    for y, ctype in ((y_py, "float"), (y_np, "numpy.float64")):
-                        if y is not None and abs(y - opt) > TOL:
-                            fail("value %r at the documented optimal coordinates differs from the documented optimum %r by more than 1e-3" % (y, opt),
-                                 cls, n, "optimum_value",
-                                 {"class": cls, "dimension": n, "x": x, "coordinate_type": ctype}, observed=y, required=opt)
+                check_clauses(cls, n, kind, x, direction, opt, y_py, y_np)
                 if len(ctx.samples) < 4 and kind == "random" and n in (2, 3) and y_py is not None:
                     ctx.sample({"class": cls, "dimension": n, "x": x, "value_python_floats": y_py, "value_numpy_floats": y_np})
 
@@ -419,6 +458,31 @@ def run(ctx):
                     fail("search found a box point with value %r, better (%s) than the documented optimum %r by more than 1e-3" % (best[0], direction, opt),
                          cls, n, "better_than_optimum", {"class": cls, "dimension": n, "x": best[1]}, observed=best[0],
                          required="%s %r" % (">=" if direction == "minimize" else "<=", opt))
+
+    # ---- large dimensions (oracle only, no Coq goals): the constructors accept any dimension, the property quantifies
+    # over every accepted one.  A few points per class: documented optimum, corners, mid point, random points.
+    stats["large_dimension_points"] = 0
+    for spec in SPECS:
+        cls, modn, fcoq, bcoq, ndim = spec
+        if not ndim or cls == "Michaelwicz":
+            continue
+        klass = getattr(mods[modn], cls)
+        for d in LARGE_DIMS.get(cls, LARGE_DIMS["default"]):
+            p = klass(dimension=d)
+            box = [(float(q["bounds"][0]), float(q["bounds"][1])) for q in p.parameters]
+            n = len(box)
+            direction = p.costs[0]["criteria"]
+            opt = float(p.global_optimum)
+            coords = [float(v) for v in p.global_optimum_coords]
+            pts = [("optimum", coords), ("corner", [b[0] for b in box]), ("corner", [b[1] for b in box]),
+                   ("corner", [box[i][i % 2] for i in range(n)]), ("mid", [(lo + hi) / 2 for lo, hi in box])]
+            pts += [("random", [rng.uniform(lo, hi) for lo, hi in box]) for _ in range(ctx.pick(3, 10))]
+            for kind, x in pts:
+                y_py, _ = evaluate(p, cls, n, x, False)
+                y_np, _ = evaluate(p, cls, n, x, True)
+                stats["large_dimension_points"] += 1
+                ctx.count((cls, n, kind, hash(tuple(x)), "large"), nontrivial=True)
+                check_clauses(cls, n, kind, x, direction, opt, y_py, y_np)
 
     # ---- purity probe: the models are functions of the point, the implementation must be one too: no state shared
     # between overlapping evaluations on one problem object (parallel evaluation runs threads on a shared problem),
